@@ -3,6 +3,7 @@ package formula
 func init() {
 	vpHarnesses["VP_C01_bytes"] = VP_C01_bytes
 	vpHarnesses["VP_C01_pool"] = VP_C01_pool
+	vpHarnesses["VP_C01_scaling"] = VP_C01_scaling
 	vpHarnesses["VP_C01_lists"] = VP_C01_lists
 }
 
@@ -130,4 +131,46 @@ func vpC01CheckText(text []byte) {
 	vpAssert("C01/bytes/no-diagnostics-without-error", len(src.Diagnostics) == 0)
 	vpAssert("C01/bytes/complete", vpComplete(src.Expression, 0))
 	vpAssert("C01/bytes/eof-token", src.EndOfFileToken != nil && src.EndOfFileToken.Token == SK_EndOfFile && src.EndOfFileToken.End() == L)
+}
+
+// vpRepeat returns prefix + unit x n + suffix.
+func vpRepeat(prefix, unit, suffix string, n int) []byte {
+	b := []byte(prefix)
+	for i := 0; i < n; i++ {
+		b = append(b, unit...)
+	}
+	return append(b, suffix...)
+}
+
+// C01/scaling: "in time roughly proportional to the input length". For a pool
+// of input shapes (valid and invalid, flat and nested, many diagnostics) the
+// cost of parsing a text four times as long is at most about four times the
+// cost: in the engine the cost is the number of SSA instructions executed
+// (deterministic), natively the elapsed time (used only to confirm a candidate;
+// the factor and the additive slack are generous).
+func VP_C01_scaling() {
+	shapes := []struct{ prefix, unit, suffix string }{
+		{"1", " + 1", ""}, {"", "(", ""}, {"", "(", "1"}, {"f(", "#", ")"}, {"[", ": ", "]"}, {"f(", "? ", ""}, {"a", ".b", ""}, {"a", "(1)", ""}, {"", "-", "1"},
+		{"[", "1, ", "1]"}, {"", "a ? ", "1"}, {"'", "\\n", "'"}, {"", "1 2 ", ""}, {"x", " = x", ""}, {"", "!", ""}, {"f(", "[", ""}, {"", "typeof ", "a"}, {"1", "\n+ 1", ""},
+	}
+	sh := shapes[vpChoice("shape", len(shapes))]
+	n1, n2 := 96, 384
+	if !vpSymbolic() {
+		n1, n2 = 4096, 16384 // native timing needs inputs long enough to dominate noise (64 KiB for the longest unit)
+	}
+	t1, t2 := vpRepeat(sh.prefix, sh.unit, sh.suffix, n1), vpRepeat(sh.prefix, sh.unit, sh.suffix, n2)
+	c0 := vpSteps()
+	_, e1 := ParseSourceCode(t1)
+	c1 := vpSteps()
+	_, e2 := ParseSourceCode(t2)
+	c2 := vpSteps()
+	cost1, cost2 := c1-c0, c2-c1
+	vpAssert("C01/scaling/same-verdict-at-both-lengths", (e1 == nil) == (e2 == nil))
+	// four times the length: at most six times the cost (quadratic behaviour gives sixteen), plus a constant
+	slack := int64(20000)
+	if !vpSymbolic() {
+		slack = 300000000 // 0.3 s
+	}
+	vpAssert("C01/scaling/cost-grows-about-linearly", cost2 <= 6*cost1+slack)
+	vpReach("C01/scaling/done")
 }
